@@ -315,6 +315,23 @@ class SNum:
         q = s // o
         return q, s - q * o
 
+    def bit_length(s):
+        """int.bit_length(): k with 2**(k-1) <= |n| < 2**k (0 for 0), over the uninterpreted pow2 with its axioms."""
+        if not s.is_int:
+            raise AttributeError("bit_length")
+        c = Ctx.cur
+        if SBool(s.e == 0):
+            return 0
+        mag = s.e if SBool(s.e > 0) else -s.e
+        c.fresh = getattr(c, "fresh", 0) + 1
+        k = z3.Int(f"bit_length!{c.fresh}")
+        c.add(k >= 1)
+        lo, hi = c.pow2(k - 1), c.pow2(k)
+        c.add(lo <= mag)
+        c.add(mag < hi)
+        c.model = None
+        return SNum(k)
+
     def __rpow__(s, base):
         if base != 2 or not s.is_int:
             raise Abort("unsupported", f"{base}**symbolic")
